@@ -77,7 +77,9 @@ var redI = map[string]func(int, int, int64) int{
 }
 
 func tagCtx(ctx context.Context, t int) context.Context {
-	if t == 0 {
+	if t == 0 || ctx == nil {
+		// a nil context (Max on an empty source hands one downstream) is passed on unchanged: a real
+		// callback doing context.WithValue(nil, …) would panic; the nil itself is what C09 reports
 		return ctx
 	}
 	return withMark(ctx, t)
